@@ -315,8 +315,15 @@ func c05GenInflux(rng *h.Rng, odd bool) c05Case {
 		lines = append(lines, fmt.Sprintf("m%d,host=h%d %s %d", i, rng.Intn(3), strings.Join(fields, ","), c05Ts+int64(i)))
 		trees = append(trees, c05Tl(append([]string{"1", c05Tn(msg)}, others...)...))
 	}
+	body := strings.Join(lines, "\n") + "\n"
+	if odd && rng.Chance(8) {
+		// the body ends inside an escape of the measurement name: telegraf's stream parser used to spin on it
+		body += h.Pick(rng, []string{"\\", "m\\", "cpu\\"})
+		trees = append(trees, c05Tl("2"))
+		sh.add("dangling-escape")
+	}
 	return c05Case{Route: c05RInflux, Tree: c05Tl("2", c05Tn(precOk), c05Tl(trees...)),
-		Req: c05Request{"POST", path, map[string]string{"Content-Type": "text/plain"}, []byte(strings.Join(lines, "\n") + "\n")}, Shape: sh.String()}
+		Req: c05Request{"POST", path, map[string]string{"Content-Type": "text/plain"}, []byte(body)}, Shape: sh.String()}
 }
 
 // ---------------------------------------------------------------- OTLP AnyValue trees
@@ -1102,6 +1109,8 @@ func c05Corpus(rng *h.Rng) []c05Case {
 		Req: c05Request{"POST", "/v1/traces", pb, tracesRaw}})
 	cs = append(cs, c05Case{Route: c05RInflux, Tree: "( 2 1 ( ( 1 2 ) ) )", Shape: "message-not-string",
 		Req: c05Request{"POST", "/influx/api/v2/write", map[string]string{"Content-Type": "text/plain"}, []byte("m message=1i 1700000000000000000\n")}})
+	cs = append(cs, c05Case{Route: c05RInflux, Tree: "( 2 1 ( ( 2 ) ) )", Shape: "dangling-escape",
+		Req: c05Request{"POST", "/influx/api/v2/write", map[string]string{"Content-Type": "text/plain"}, []byte("\\")}})
 	for _, f := range []c05ProfForce{
 		{"1700000000", "1700000010", "app{", -1, false, "name-open-brace"},
 		{"0", "1700000010", "app", 0, false, "from-zero"},
